@@ -33,3 +33,59 @@ package mfs
 //@   site[skip_unlink_only_for_same_entry] return:nil : dirPath(srcDir) == dirPath(dstDir) && srcFname == dstFname
 //@   site[unlink_the_source] call:Directory.Unlink#1 : arg0 == srcDir && arg1 == srcFname
 //@   site[add_to_destination] call:Directory.AddChild : arg0 == dstDir && arg1 == dstFname && arg2 == nd
+
+// ---- C20: lock discipline of File.nodeLock (ghost lockset of the current call chain) ------
+// A sync.RWMutex read lock is not re-entrant: a second RLock by the same call chain blocks
+// forever once a writer is queued between the two acquisitions.
+//@ ghost heldR(m *sync.RWMutex) bool
+//@ ghost heldW(m *sync.RWMutex) bool
+//@ func ext (*sync.RWMutex).RLock
+//@   requires[not_reentrant] !heldR(rw) && !heldW(rw)
+//@   modifies heldR(rw)
+//@   ensures heldR(rw)
+//@ func ext (*sync.RWMutex).RUnlock
+//@   requires[held] heldR(rw)
+//@   modifies heldR(rw)
+//@   ensures !heldR(rw)
+//@ func ext (*sync.RWMutex).Lock
+//@   requires[not_reentrant] !heldR(rw) && !heldW(rw)
+//@   modifies heldW(rw)
+//@   ensures heldW(rw)
+//@ func ext (*sync.RWMutex).Unlock
+//@   requires[held] heldW(rw)
+//@   modifies heldW(rw)
+//@   ensures !heldW(rw)
+
+//@ macro nodeLockFree(fi) = !heldR(addr(fi.nodeLock)) && !heldW(addr(fi.nodeLock))
+
+//@ func (*File).GetNode
+//@   prop C20
+//@   arith bv
+//@   requires fi != nil
+//@   requires[lock_free] nodeLockFree(fi)
+//@   ensures[lock_released] nodeLockFree(fi)
+//@   ensures[node] err == nil && result0 == fi.node
+
+//@ func (*File).Size
+//@   prop C20
+//@   arith bv
+//@   requires fi != nil
+//@   requires[lock_free] nodeLockFree(fi)
+//@   modifies all
+//@   ensures[lock_released] nodeLockFree(fi)
+
+//@ func (*File).Mode
+//@   prop C20
+//@   arith bv
+//@   requires fi != nil
+//@   requires[lock_free] nodeLockFree(fi)
+//@   modifies all
+//@   ensures[lock_released] nodeLockFree(fi)
+
+//@ func (*File).ModTime
+//@   prop C20
+//@   arith bv
+//@   requires fi != nil
+//@   requires[lock_free] nodeLockFree(fi)
+//@   modifies all
+//@   ensures[lock_released] nodeLockFree(fi)
